@@ -140,3 +140,35 @@ def dict_entries(t):
             body = body[1]
         return out if body[0] == "loopin" and out else None
     return None
+
+
+def row_filters(t, base):
+    """a row selection of `base`, in any nesting: base[a & b], base.loc[a][b'], base[a].loc[b'] .. -> the list of element-wise conditions
+    over `base` that a row has to meet (a condition computed on an intermediate selection is rewritten over `base`: selecting rows does
+    not change a row's values), or None when t is not such a selection"""
+    conds = []
+    inner = []
+    cur = t
+    while cur != base:
+        if cur[0] == "call" and cur[1][0] == "attr" and cur[1][2] in ("copy", "reset_index") and not cur[2]:
+            cur = cur[1][1]
+            continue
+        if cur[0] == "sub":
+            src = cur[1][1] if cur[1][0] == "attr" and cur[1][2] == "loc" else cur[1]
+            inner.append((src, cur[2]))
+            cur = src
+            continue
+        return None
+
+    def flat(m):
+        if m[0] == "bin" and m[1] == "&":
+            return flat(m[2]) + flat(m[3])
+        return [m]
+    for src, mask in inner:
+        m = ir.subst(mask, {src: base}) if src != base else mask
+        # deeper intermediates inside the mask
+        for s2, _ in inner:
+            if s2 != base and any(x == s2 for x in ir.walk(m)):
+                m = ir.subst(m, {s2: base})
+        conds += flat(m)
+    return conds
